@@ -13,7 +13,7 @@ Abstract states
 import ast
 import itertools
 
-from ..model import (AnalysisError, FunctionInfo, dotted, norm_text,
+from ..model import (AnalysisError, FunctionInfo, fold_ifexp, dotted, norm_text,
                      const_value, is_none, names_read, call_args,
                      self_attr_assigns)
 
@@ -596,6 +596,10 @@ def trace(prog, fn, env, attr_defs=None, both_on_unknown=False):
       if isinstance(st, ast.If):
         reads = names_read(st.test)
         tv = lg.truth(st.test)
+        if tv is None and isinstance(fold_ifexp(st), ast.Assign):
+          # `x = A if c else B` in its normal form: one simple statement
+          out.append(fold_ifexp(st))
+          continue
         if tv is None:
           if not both_on_unknown:
             raise AnalysisError('%s: test `%s` is not decided by the '
@@ -711,7 +715,44 @@ def check_clip_paths(prog, res, fn, flag='clip_inputs', rule='X5',
             return True
       return False
   bad = []
+  early = []
   n_paths = [0]
+  # the tensor that is clipped: first argument / `inputs=` of the clip call
+  subject = None
+  for st in ast.walk(fn.node):
+    if isinstance(st, ast.stmt) and not isinstance(
+        st, (ast.If, ast.For, ast.While, ast.FunctionDef)) and is_clip(st):
+      for c in ast.walk(st):
+        if isinstance(c, ast.Call) and (c.args or c.keywords):
+          a = c.args[0] if c.args else c.keywords[0].value
+          for k in c.keywords:
+            if k.arg in ('inputs', 't', 'weights'):
+              a = k.value
+          if isinstance(a, ast.Name):
+            subject = subject or a.id
+
+  def derives(st):
+    """st stores, under another name, a value computed from the (still
+    unclipped) subject - not its shape / dtype / type"""
+    if subject is None or not isinstance(st, (ast.Assign, ast.AugAssign)):
+      return False
+    tgt = st.targets[0] if isinstance(st, ast.Assign) else st.target
+    if dotted(tgt) == subject:
+      return False
+    meta = set()
+    for m in ast.walk(st.value):
+      if isinstance(m, ast.Attribute) and m.attr in ('shape', 'dtype'):
+        meta.update(id(x) for x in ast.walk(m))
+      if isinstance(m, ast.Call) and dotted(m.func) in (
+          'len', 'isinstance', 'tf.shape', 'tf.rank', 'type'):
+        meta.update(id(x) for x in ast.walk(m))
+      if isinstance(m, (ast.ListComp, ast.GeneratorExp)) and isinstance(
+          m.elt, ast.Attribute) and m.elt.attr in ('shape', 'dtype') and \
+          len(m.generators) == 1 and dotted(m.elt.value) == dotted(
+              m.generators[0].target):
+        meta.update(id(x) for x in ast.walk(m))
+    return any(isinstance(m, ast.Name) and m.id == subject and
+               id(m) not in meta for m in ast.walk(st.value))
 
   def decide(test):
     reads = names_read(test)
@@ -724,35 +765,67 @@ def check_clip_paths(prog, res, fn, flag='clip_inputs', rule='X5',
         return False
     return None
 
-  def walk(stmts, clipped):
-    """returns the list of clipped-bits with which control falls through"""
-    states = [clipped]
+  by_id = {}
+
+  def clip_arg(st):
+    for c in ast.walk(st):
+      if isinstance(c, ast.Call) and (c.args or c.keywords):
+        ext = prog.ext_name(fn.module, c.func) or ''
+        nm = getattr(prog.resolve_call(fn, c), 'name', '')
+        if ext.endswith('clip_by_value') or nm.startswith('_clip_onto'):
+          a = c.args[0] if c.args else c.keywords[0].value
+          for k in c.keywords:
+            if k.arg in ('inputs', 't', 'weights'):
+              a = k.value
+          return dotted(a)
+    return None
+
+  def walk(stmts, state):
+    """state = (a clip was executed, statements that derived a value from the
+    still unclipped subject); returns the states with which control falls
+    through"""
+    states = [state]
     for st in stmts:
       nxt = []
-      for c in states:
+      for c, pend in states:
         if isinstance(st, ast.If):
           d = decide(st.test)
           arms = [(st.body, True), (st.orelse, False)]
           if d is not None:
             arms = [(st.body if d else st.orelse, d)]
           for body, _ in arms:
-            nxt.extend(walk(body, c))
+            nxt.extend(walk(body, (c, pend)))
         elif isinstance(st, (ast.For, ast.While)):
-          nxt.extend(walk(st.body, c))
-          nxt.append(c)
+          nxt.extend(walk(st.body, (c, pend)))
+          nxt.append((c, pend))
         elif isinstance(st, ast.Return):
           n_paths[0] += 1
-          if not c and (uses is None or True):
+          if not c:
             bad.append(st)
         elif isinstance(st, ast.Raise):
           pass
         else:
-          nxt.append(c or is_clip(st))
-      states = sorted(set(nxt))
+          if is_clip(st):
+            a = clip_arg(st)
+            if a == subject:
+              # the subject is clipped only now: what was derived from it
+              # before is stale
+              early.extend(by_id[i] for i in sorted(pend))
+              pend = frozenset()
+            else:
+              # a derived value that is clipped itself is fine
+              pend = frozenset(i for i in pend if dotted(
+                  by_id[i].targets[0] if isinstance(by_id[i], ast.Assign)
+                  else by_id[i].target) != a)
+          elif not c and derives(st):
+            by_id[id(st)] = st
+            pend = pend | {id(st)}
+          nxt.append((c or is_clip(st), pend))
+      states = sorted(set(nxt), key=lambda t: (t[0], sorted(t[1])))
       if not states:
         break
     return states
-  walk(fn.node.body, False)
+  walk(fn.node.body, (False, frozenset()))
   key = '%s|%s-on-every-path' % (fn.qualname, flag)
   res.check(not bad, rule, key, fn.loc(bad[0] if bad else None),
             'with %s on, each of the %d return paths passes a clip' % (
@@ -761,4 +834,16 @@ def check_clip_paths(prog, res, fn, flag='clip_inputs', rule='X5',
             'out-of-range inputs are extrapolated on that path (the clip '
             'sits in one arm of a dispatch only)' % (
                 flag, norm_text(bad[0])[:50] if bad else ''))
+  if subject is not None:
+    # a path on which nothing is clipped at all is reported above; here only
+    # values taken from the subject BEFORE a clip that does come later
+    early = list({id(x): x for x in early}.values())
+    res.check(not early, rule, '%s|%s-before-use' % (fn.qualname, flag),
+              fn.loc(early[0] if early else None),
+              'nothing is computed from `%s` before it is clipped' % subject,
+              '`%s` is computed from `%s` before the clip: the clipped tensor '
+              'and the value derived earlier disagree for out-of-range '
+              'inputs (e.g. a cell index taken from the raw coordinate, an '
+              'int32 cast that overflows)' % (
+                  norm_text(early[0])[:60] if early else '', subject))
   return n_paths[0]
